@@ -223,7 +223,19 @@ func runC09(c *mon.Ctx) {
 					cw = gen.Pick(sr, worlds)
 				}
 				ac, err := genAuthCase(sr, cw)
-				if err != nil || !sameRoom(ac.state) {
+				if err != nil {
+					continue
+				}
+				if mixRooms && sr.Chance(0.2) && len(ac.state) > 0 {
+					// an auth event of another room among the state (a power-levels or member event that would authorise
+					// the sender there): refused on its own, so refused through the reused checker
+					ow := gen.Pick(sr, worlds)
+					if ow != cw && len(ow.pls) > 0 {
+						ac.state = append(ac.state, gen.Pick(sr, ow.pls))
+						ac.kind += "+auth-event-of-another-room"
+						interesting = true
+					}
+				} else if !sameRoom(ac.state) {
 					continue
 				}
 				if sr.Chance(0.12) {
@@ -345,6 +357,9 @@ func runC09(c *mon.Ctx) {
 
 // reuseSig names the shape of a reuse divergence.
 func reuseSig(kind, prevKind, fresh string, state []gmsl.PDU) string {
+	if strings.Contains(kind, "+auth-event-of-another-room") {
+		return "reuse:verdict-differs:with-auth-event-of-another-room:" + fresh + "-on-its-own"
+	}
 	if i := strings.Index(kind, "+undecodable-"); i >= 0 {
 		return "reuse:verdict-differs:with-" + kind[i+1:] + ":" + fresh + "-on-its-own"
 	}
